@@ -212,13 +212,17 @@ def rule_exit(ctx, prop):
                 writers.append((f, bi, t, m, consts))
         for f, bi, t, m, consts in writers:
             val = consts[0] if consts else None
-            where_ok = (f.path == "format::{closure#0}" and val == 1) or (f.path == "main::{closure#0}" and val == 2)
+            in_err_arm = False
+            if f.path == "format::{closure#0}" and val == 2:
+                in_err_arm = guarded_by_variant(f, bi, "result::Result", "Err")
+            where_ok = (f.path == "format::{closure#0}" and val == 1) or (f.path == "main::{closure#0}" and val == 2) \
+                or in_err_arm
             rep.inst(f"{f.key} EXIT_CODE.{m}({val})", {"fn": f.key, "at": f.loc(t["sp"])}, cfg, ok=where_ok)
             if not where_ok:
                 rep.violation(f"{f.key} unexpected-EXIT_CODE-writer {m}({val})",
-                              f"EXIT_CODE.{m}({val}) in {f.key}: only the diff handler may raise it to 1 and only "
-                              f"the logger may raise it to 2", f.loc(t["sp"]), cfg)
-            if f.path == "format::{closure#0}":
+                              f"EXIT_CODE.{m}({val}) in {f.key}: only the diff handler may raise it to 1; only the logger "
+                              f"and the Err arm of the output thread may raise it to 2", f.loc(t["sp"]), cfg)
+            if f.path == "format::{closure#0}" and val != 2:
                 # must be inside the Diff arm
                 dom = False
                 for sb in f.dominators().get(bi, ()):
@@ -787,4 +791,78 @@ def rule_walk(ctx, prop):
         # (6) explicit + respect_ignores + ignored => skip (continue) before dispatch
         pis = [(b, t) for b, t in f.calls() if callee(t) == "path_is_stylua_ignored"]
         rep.floor("path_is_stylua_ignored call sites in format", len(pis), 2, cfg)
+    return rep
+
+
+def rule_err_status(ctx, prop):
+    rep = Report(prop, "R-ERRSTATUS", "every path of the output thread that handles an Err result raises the exit status to 2 "
+                                      "(through error!, whose logger stores 2, or by writing EXIT_CODE directly)")
+    for cfg, prog in ctx.programs.items():
+        oc = prog.fn("stylua", "format::{closure#0}")
+        if not rep.anchor(oc is not None, "output closure format::{closure#0}", cfg):
+            continue
+        nexts = [b for b, t in oc.calls() if re.search(r"crossbeam_channel::IntoIter<T> as std::iter::Iterator>::next$", callee(t))]
+        if not rep.anchor(len(nexts) == 1, "receiver loop in output closure", cfg):
+            continue
+        header = nexts[0]
+        errb = None
+        for bi in range(len(oc.blocks)):
+            si = switch_info(oc, bi)
+            if si and si["enum"].endswith("result::Result") and si["targets"].get("Err") is not None and \
+                    si["targets"].get("Ok") is not None:
+                pr = provenance(oc, si["place"], through=None)
+                if any(r[0] == "call" and r[2] == header for r in pr):
+                    errb = si["targets"]["Err"]
+        if not rep.anchor(errb is not None, "Err arm of the received result", cfg):
+            continue
+        uses, _ = static_uses(prog, "EXIT_CODE")
+        raisers = set()
+        for f, bi, t, m, consts in uses:
+            if f is oc and m in ("store", "fetch_max") and consts and consts[0] == 2:
+                raisers.add(bi)
+        for bi, blk in enumerate(oc.blocks):
+            t = blk["term"]
+            if t["k"] == "call" and "error" in span_macros(t.get("sp")) and \
+                    (callee(t).endswith("PartialOrd::le") or "PartialOrd" in callee(t) or
+                     callee(t) == "log::__private_api::log"):
+                raisers.add(bi)
+            for s in blk["st"]:
+                if "error" in span_macros(s.get("sp")) and s["k"] == "assign" and s["rv"]["k"] == "agg" and \
+                        s["rv"].get("variant") == "Error" and "log::Level" in s["rv"].get("adt", ""):
+                    raisers.add(bi)
+        rep.floor("status-2 raisers in the output closure", len(raisers), 3, cfg)
+        # search for a path Err-arm -> loop header avoiding raisers
+        seen = set()
+        stack = [(errb, [])]
+        escapes = []
+        while stack:
+            b, calls = stack.pop()
+            if b in raisers:
+                continue
+            if b == header or oc.blocks[b]["term"]["k"] == "return":
+                escapes.append(calls)
+                continue
+            if b in seen:
+                continue
+            seen.add(b)
+            t = oc.blocks[b]["term"]
+            nc = calls
+            if t["k"] == "call":
+                c = callee(t)
+                if not re.search(r"(^core::|^std::(fmt|ptr|mem)|deref|drop|downcast_ref|::lock$)", c):
+                    nc = calls + [c.split("::")[-1]]
+            for s in oc.succ[b]:
+                stack.append((s, nc))
+        ok = not escapes
+        rep.inst(f"{oc.key} Err-arm-always-raises-status-2", {"err_block": errb, "raisers": sorted(raisers)[:8]}, cfg, ok=ok)
+        keys = set()
+        for calls in escapes:
+            via = ",".join(calls[:6]) or "nothing"
+            if via in keys:
+                continue
+            keys.add(via)
+            rep.violation(f"{oc.key} error-handled-without-status-2 via={via}",
+                          f"the output thread has a path that handles an Err result (calls: {via}) and returns to the "
+                          f"receive loop without raising the exit status to 2: the run can exit 0/1 although a file could "
+                          f"not be read, parsed or verified", oc.loc(), cfg)
     return rep
